@@ -198,6 +198,17 @@ def near_equal_case(ctx, idx, rng):
     check_model(ctx, name, L, p, d)
 
 
+def bose_large_d_case(ctx, idx, rng):
+    """Bose-Hubbard with LARGE local dimension (5 .. 20 at L = 1, 2; 127 .. 130 and 200 at L = 1): occupation numbers up to 199, n(n-1) up to 39402 -- narrow
+    integer types for occupancies wrap from n = 12 (int8) / n = 182 (int16) on."""
+    d = int(rng.choice(list(range(5, 21)) + [127, 128, 129, 130, 200]))
+    L = 1 if d > 20 else int(rng.integers(1, 3))
+    p = tuple(float(x) for x in rng.choice([-1, 1], size=3) * rng.uniform(0.3, 1.5, size=3))
+    ctx.case(('bose', f'L{L}', 'large-local-dimension', 'd<=20' if d <= 20 else ('d~128' if d < 200 else 'd=200')), sample={'model': 'bose', 'L': L, 'params': p, 'd': d},
+             info={'model': 'bose', 'L': L, 'params': p, 'd': d})
+    check_model(ctx, 'bose', L, p, d)
+
+
 def random_case(ctx, idx, rng):
     name = str(rng.choice(['ising', 'xxz', 'xxz1', 'bose', 'fermi']))
     d = int(rng.integers(1, 5)) if name == 'bose' else None
@@ -392,6 +403,7 @@ SPEC = {
         Workload('integer-grid', IG_Q, quick=IG_Q.count, thorough=0, exhaustive={'space': 'all parameter triples in {-2..3}^3, every model, L=3'}),
         Workload('integer-grid-all', IG_T, quick=0, thorough=IG_T.count, exhaustive={'space': 'all parameter triples in {-4..4}^3, every model, L=1..4'}),
         Workload('near-equal-parameters', near_equal_case, quick=400, thorough=40000),
+        Workload('bose-large-d', bose_large_d_case, quick=60, thorough=1500),
         Workload('random', random_case, quick=150, thorough=40000),
         Workload('large', large_case, quick=120, thorough=6000),
         Workload('very-long', very_long_case, quick=2, thorough=64),
